@@ -142,9 +142,10 @@ func (s *registrationServiceImpl) getInternalStateDescription(appCtx appctx.Appl
 		Extensions: []statejson.ExtensionDescription{},
 	}
 
-	if s.runtime != nil {
+	// the runtime is read once, under the mutex: a reset clears it while a failed invocation collects this description
+	if runtime := s.GetRuntime(); runtime != nil {
 		// we use pointer here so that 'runtime' json field is nil if runtime is not set (as opposed to filled with default values)
-		rtdesc := s.runtime.GetRuntimeDescription()
+		rtdesc := runtime.GetRuntimeDescription()
 		isd.Runtime = &rtdesc
 	}
 
